@@ -649,6 +649,8 @@ Interpolation Perform_KDE(std::vector<DataPoint> data, double xMin, double xMax,
 	// 2. Perform and tabulate the KDE
 	int points = 150;
 	double dx  = (xMax - xMin) / (points - 1);
+	// The estimate is tabulated with spacing dx and cannot represent narrower kernels. (For (nearly) identical data or a tiny bandwidth every tabulated value underflows and the normalization below is 0/0.)
+	bw = std::max(bw, dx);
 	std::vector<std::vector<double>> Interpol_List;
 	for(int j = 0; j < points; j++)
 	{
